@@ -88,3 +88,100 @@ package immutable
 //@     requires arg0 == trSegs[i][0] && arg1 == trSegs[i][1]
 //@   call (*ColVal).ValidCount
 //@     requires arg0 == rowIdxStart && arg1 == rowIdxStop
+
+// ================================================================ C03: crash-atomic file replacement
+//@ prop C03
+
+// The intent log is complete and durable before its name is handed out: write, then sync, then close.
+//@ func (*MmsTables).writeCompactedFileInfo
+//@   ghost st int = 0
+//@   call .Write
+//@     requires st == 0
+//@     set st = 1
+//@   call .Sync
+//@     requires st == 1
+//@     set st = 2
+//@   call .Close
+//@     requires st == 2
+//@     set st = 3
+//@   ensures result1 == nil ==> st == 3
+
+// A log is interpreted only if it ends with the magic trailer (a torn log is "dirty", never half-applied).
+//@ func readCompactLogFile
+//@   ghost magicOK bool = false
+//@   call bytes.Equal
+//@     set magicOK = ret0
+//@   call (*CompactedFileInfo).unmarshal
+//@     requires magicOK
+//@   ensures result == nil ==> magicOK
+
+// Decoding a log never reads outside the buffer (every length is checked before the bytes are taken).
+//@ func (*CompactedFileInfo).unmarshal
+//@   requires info != nil
+
+// Recovery decision: old files are deleted (processFiles) only if EVERY new file of the log is present;
+// the roll-back renames happen only if not all new files are present and all old files still are.
+//@ func processLog
+//@   requires info != nil
+//@   call newFileExist
+//@     frame nothing
+//@   call oldFileExist
+//@     frame nothing
+//@   call processFiles
+//@     requires n == len(info.NewFile)
+//@   call renameFile
+//@     frame nothing
+//@     requires n != len(info.NewFile) && count == len(info.OldFile)
+
+// A new file counts as present under its temporary name or under its final (already renamed) name.
+//@ func getProcessLogFuncs$1
+//@   ghost seen bool = false
+//@   call .Name
+//@     set seen = seen || ret0 == normalName || ret0 == newFile
+//@   ensures seen ==> result
+//@   loop 1
+//@     invariant !seen
+
+//@ func getProcessLogFuncs$2
+//@   ghost seen bool = false
+//@   call .Name
+//@     set seen = seen || ret0 == oldFile
+//@   ensures seen ==> result
+//@   loop 1
+//@     invariant !seen
+
+// Completing a replacement: every rename of a new file happens before the first removal of an old file,
+// and only files named in the log are removed.
+//@ func processFiles
+//@   requires info != nil
+//@   ghost removed bool = false
+//@   call renameFile
+//@     requires !removed
+//@   call fileops.Remove
+//@     requires oldFileChecked
+//@     set removed = true
+//@   ghost oldFileChecked bool = false
+//@   call oldFileExist
+//@     set oldFileChecked = ret0
+
+// Startup recovery removes a log only after it tried to process it; dirty logs are skipped untouched.
+//@ func procCompactLog
+//@   ghost processed bool = false
+//@   call processLog
+//@     set processed = true
+//@   call fileops.Remove
+//@     requires processed
+//@   loop 1
+//@     invariant true
+
+// Level planning: a file at or above the target level closes the pending group (only adjacent low files are grouped).
+//@ func (*CompactGroupBuilder).addLowLevelMode
+//@   ghost asked bool = false
+//@   ghost ln int = 0
+//@   ghost switched bool = false
+//@   call (*CompactGroup).Len
+//@     set asked = true
+//@     set ln = ret0
+//@   call (*CompactGroupBuilder).SwitchGroup
+//@     set switched = true
+//@   ensures asked && ln > 0 ==> switched
